@@ -44,7 +44,7 @@ def run_cases(ctx, cases_path, tag):
             continue
         seen.add(key)
         cp = os.path.join(ctx.work, "confirm_%d.ndjson" % len(os.listdir(ctx.work)))
-        write_ndjson(cp, [dict(id="confirm", t1=r["t1"], t2=r["t2"], tpl=r["tpl"], facts=r["facts"], dstfact=[])])
+        write_ndjson(cp, [dict(id="confirm", t1=r["t1"], t2=r["t2"], t1b=r.get("t1b", []), t2b=r.get("t2b", []), tpl=r["tpl"], facts=r["facts"], dstfact=[])])
         rp2 = cp.replace(".ndjson", ".res.ndjson")
         ctx.run_vh(["bounds", "--in", cp, "--out", rp2])
         val2 = ctx.validate(rp2, module="Trace_Bounds", shards=1)
@@ -54,7 +54,7 @@ def run_cases(ctx, cases_path, tag):
         r2 = read_ndjson(rp2)[0]
         bad = [s for s in r2["stored"] if not s["ok"]]
         ctx.violation("%s: accepted by AnalyzeAndCheckBounds(ErrorForBoundsMismatch) but %s | %s" % (m["kind"], bad[0]["err"][:200] if bad else r2.get("err", ""), r["text"].replace("\n", " ")),
-                      dict(property="C11", replay_family="bounds", kind=m["kind"], case=dict(id="replay", t1=r["t1"], t2=r["t2"], tpl=r["tpl"], facts=r["facts"], dstfact=[]), program_text=r["text"], observed=r2["stored"]))
+                      dict(property="C11", replay_family="bounds", kind=m["kind"], case=dict(id="replay", t1=r["t1"], t2=r["t2"], t1b=r.get("t1b", []), t2b=r.get("t2b", []), tpl=r["tpl"], facts=r["facts"], dstfact=[]), program_text=r["text"], observed=r2["stored"]))
     if ctx.notes.get("unreproduced") and not ctx.violations:
         raise InfraError("bounds mismatch did not reproduce: %s" % ctx.notes["unreproduced"][:1])
     drift = 0
@@ -71,12 +71,25 @@ def check_c11(ctx):
     quick = ctx.tier == "quick"
     ctx.build_vh()
     allp = os.path.join(ctx.work, "bounds_all.ndjson")
-    g = ctx.gen_cases("BoundsGen", "BoundsGen.cfg", allp, workers=8, idprefix="b-")
+    if quick:
+        g = ctx.gen_cases("BoundsGen", "BoundsGen_sim.cfg", allp, simulate=dict(num=30000, depth=3), idprefix="b-")
+    else:
+        g = ctx.gen_cases("BoundsGen", "BoundsGen.cfg", allp, workers=8, idprefix="b-")
     runp = os.path.join(ctx.work, "bounds.ndjson")
     n = evalfam.sample_file(allp, runp, 25000 if quick else None, rnd)
     ctx.notes["generators"] = dict(programs=g["cases"], executed=n, exhaustive=not quick)
     ctx.exhaustive = not quick
     res = run_cases(ctx, runp, "bounds")
+    # predicates with two bound rows (alternatives) and bodies where a later premise refines the type an earlier one gave
+    allp2 = os.path.join(ctx.work, "rows_all.ndjson")
+    if quick:
+        g2 = ctx.gen_cases("BoundsGen", "BoundsGen_rows_sim.cfg", allp2, simulate=dict(num=25000, depth=3), idprefix="r-")
+    else:
+        g2 = ctx.gen_cases("BoundsGen", "BoundsGen_rows.cfg", allp2, workers=8, idprefix="r-")
+    runp2 = os.path.join(ctx.work, "rows.ndjson")
+    n2 = evalfam.sample_file(allp2, runp2, 25000 if quick else None, rnd)
+    ctx.notes["generators"].update(row_programs=g2["cases"], row_programs_executed=n2)
+    res.update(run_cases(ctx, runp2, "rows"))
     k = 0
     for r in res.values():
         if r["outcome"] == "ok" and any(s["pred"] == "dst" for s in r["stored"]):
@@ -87,7 +100,7 @@ def check_c11(ctx):
     ctx.assumptions += ["the judge is the library's own run-time check builtin.TypeChecker.CheckTypeBounds on every stored fact of a declared predicate; Types!Member is compared as drift only",
                         "the inference algorithm itself is not modelled, only its soundness contract (accepted => every stored fact within its declared bounds)"]
     return ctx.finish("model_checking",
-                      "programs generated by TLC (BoundsGen): 14 source bounds x 19 destination bounds x 13 rule templates (copy, construct pair/list/map, destructure pair/list/struct, join, compute, convert) x base facts over a 19-constant witness universe "
+                      "programs generated by TLC (BoundsGen): 14 source bounds x 19 destination bounds x 13 rule templates (copy, construct pair/list/map, destructure pair/list/struct, join, compute, convert) x base facts over a 20-constant witness universe, plus the multi-row family (two bound rows per predicate x 7 templates in which a wide premise and the multi-row premise refine the same variable in either order) "
                       "(admitted and not admitted by the bound); each goes through AnalyzeAndCheckBounds(ErrorForBoundsMismatch), accepted ones are evaluated and every stored fact is checked by CheckTypeBounds; "
                       "non-trivial = accepted program that derives a dst fact; distinct by program text")
 
